@@ -191,6 +191,7 @@ Inductive c06_class : Type :=
 | K_cls_str_default_parsed_as_code (* a str default under a non-str type is handed to ast.parse *)
 | K_cls_falsy_default_is_zero      (* a falsy default (0, False, empty string) becomes the zero value of the declared type *)
 | K_cls_type_from_default          (* untyped attribute: annotation is the default's Python type *)
+| K_cls_private_name_mangled       (* an attribute named __x is stored by Python as _Class__x *)
 | K_ap_single_literal_no_choices   (* Literal with one member: no choices= *)
 | K_ap_other.                      (* argparse type/required/default inference differs from the IR (C04's classes) *)
 
@@ -208,6 +209,7 @@ Definition c06_class_name (k : c06_class) : str :=
   | K_cls_str_default_parsed_as_code => L "class-str-default-parsed-as-code"
   | K_cls_falsy_default_is_zero => L "class-falsy-default-becomes-zero"
   | K_cls_type_from_default => L "class-annotation-from-default"
+  | K_cls_private_name_mangled => L "class-private-name-mangled"
   | K_ap_single_literal_no_choices => L "argparse-single-literal-no-choices"
   | K_ap_other => L "argparse-inference"
   end.
@@ -348,7 +350,10 @@ Definition finding_class_C06 (kind : c06_kind) (clause : str) (i : ir) (inline_t
   | KClass =>
     let ps := ir_params i ++ returns_as_param i in
     let anyp f := existsb (fun kv => f (snd kv)) ps in
-    if str_eqb clause (L "emit") then
+    if existsb (fun kv => startswith (L "__") (fst kv) && negb (endswith (L "__") (fst kv))) ps
+       && (str_eqb clause (L "attr_names_order") || str_eqb clause (L "attr_value")
+           || str_eqb clause (L "attr_annotation")) then Some K_cls_private_name_mangled
+    else if str_eqb clause (L "emit") then
       if anyp (fun g => match fget (g_typ g), g_default g with
                         | Some t, Some (DV v) =>
                           match needs_quoting (Some t) with
